@@ -21,7 +21,7 @@ theorem wpre_send (w0 : List Byte) (s : S) (d : List Byte) (hs : WPre w0 s) : WP
       · rename_i k q _
         exact ⟨t ++ d.take k, by simp [ht, List.append_assoc]⟩
       · exact ⟨t, ht⟩
-      · exact ⟨t, ht⟩
+      · split <;> exact ⟨t, ht⟩
 
 theorem wpre_enable (w0 : List Byte) (s : S) (hs : WPre w0 s) : WPre w0 (enable s).1 := by
   unfold enable; split; exact hs; split <;> exact hs
